@@ -28,6 +28,11 @@ theorem pot_step (s : State) (m : Nat) (a : Act) (g : Good s m) (hlt : s.height 
   obtain ⟨hfill, hact⟩ := g.go hlt
   cases a with
   | disc => exact absurd rfl hd
+  | notify =>
+    right
+    have hnd := g.nd
+    simp only [apply, notify, hnd, Bool.false_eq_true, if_false, pot, cost, reduceCtorEq, Nat.add_zero]
+    exact Nat.le_refl _
   | put e hr' =>
     right
     obtain ⟨h1, h2, _, _⟩ := put_frame s e (min hr' s.height)
